@@ -310,6 +310,7 @@ func diffS(a, b []string) []string {
 func withoutCommentText(lint []string, d []comment) []string {
 	out := make([]string, len(lint))
 	for i, l := range lint {
+		l = strings.ReplaceAll(l, "\r", "") // a CRLF line end stays inside a quoted line comment
 		for _, c := range d {
 			t := commentText(c)
 			l = strings.ReplaceAll(l, t+" ", "")
